@@ -2,6 +2,7 @@ SPECIFICATION Spec
 CONSTANT Bug = "none"
 CONSTANT MaxDefects = 1
 CONSTANT MaxValidations = 2
+CONSTANT AllowForever = FALSE
 CONSTANT MaxPending = 0
 INVARIANT TypeOK
 INVARIANT Precedence
